@@ -3170,6 +3170,29 @@ def module_constants(tree, others=()):
                         container(st.value) and
                         _only_read(tree, st.targets[0].id, others))):
             out[st.targets[0].id] = st.value
+    # a literal built from other constants (a pattern with a shared
+    # character class spliced in): the same literal with those written out
+    while True:
+        more = False
+        for st in tree.body:
+            if isinstance(st, ast.Assign) and len(st.targets) == 1 and \
+                    isinstance(st.targets[0], ast.Name) and \
+                    st.targets[0].id not in out and \
+                    count.get(st.targets[0].id) == 1 and \
+                    not isinstance(st.value, (ast.Name, ast.Tuple)) and any(
+                        isinstance(x, ast.Name) and x.id in out and
+                        isinstance(out[x.id], (ast.Constant, ast.BinOp,
+                                               ast.JoinedStr))
+                        for x in ast.walk(st.value)):
+                sub = _Subst({k_: v_ for k_, v_ in out.items()
+                              if isinstance(v_, (ast.Constant, ast.BinOp,
+                                                 ast.JoinedStr))}, {})
+                val = sub.visit(copy.deepcopy(st.value))
+                if literal(val):
+                    out[st.targets[0].id] = val
+                    more = True
+        if not more:
+            break
     # a table computed from other constants ({s: i for i, s in
     # enumerate(ORDER)}): its value, when it folds and is only read
     for st in tree.body:
